@@ -178,7 +178,7 @@ def d_term(t):
     if c is T.ArithmeticExpression:
         return {"k": "arith", "op": t.operator.name, "l": d_term(t.left), "r": d_term(t.right), "alias": al}
     if c is T.ComplexCriterion:
-        return {"k": "complex", "op": t.comparator.name, "l": d_term(t.left), "r": d_term(t.right)}
+        return {"k": "complex", "op": t.comparator.name, "l": d_term(t.left), "r": d_term(t.right), "alias": al}
     if c is T.BasicCriterion:
         return {"k": "basic", "cmp": t.comparator.value, "l": d_term(t.left), "r": d_term(t.right), "alias": al}
     if c is T.Not:
